@@ -58,6 +58,8 @@ def run(ctx, pid):
     quick = ctx.quick
     rng = ctx.rng
     lock = threading.Lock()
+    # many small JVMs run in parallel: keep each one's GC / JIT thread pools small (the box is shared)
+    os.environ.setdefault("JAVA_TOOL_OPTIONS", "-XX:ParallelGCThreads=2 -XX:CICompilerCount=2")
     exe = ctx.build("readyqueue")
     pool = concurrent.futures.ThreadPoolExecutor(max_workers=6)
     total = {"hist": 0, "walks": 0, "steps": 0, "drift": 0, "events": 0}
@@ -69,11 +71,11 @@ def run(ctx, pid):
     mc_cfgs = ["MC_RQ_2p.cfg", "MC_RQ_ovf.cfg"] if quick else \
               ["MC_ReadyQueue.cfg", "MC_RQ_2p.cfg", "MC_RQ_ovf.cfg", "MC_RQ_3w.cfg", "MC_RQ_steal.cfg", "MC_RQ_t.cfg"]
     f_mc = [pool.submit(ctx.tlc_must_hold, SPEC, c, module="MC_ReadyQueue", timeout=600 if quick else 2400,
-                        workers=3 if quick else 6) for c in mc_cfgs]
+                        workers=2 if quick else 6) for c in mc_cfgs]
     f_live = pool.submit(ctx.tlc_must_hold, SPEC, "Live_ReadyQueue.cfg" if quick else "Live_RQ_t.cfg", module="MC_ReadyQueue",
                          timeout=600 if quick else 2400, workers=2)
     f_def = {d: pool.submit(ctx.tlc, SPEC, "Def_%s.cfg" % d, module="MC_ReadyQueue", timeout=600, expect_fail=True, workers=2)
-             for d in (("NoSignal",) if quick else ("NoSignal", "StealNoAdvance", "ParkedLeak", "ParkNoRecheck"))}
+             for d in (() if quick else ("NoSignal", "StealNoAdvance", "ParkedLeak", "ParkNoRecheck"))}
 
     # ------------------------------------------------------------------ 2. free-running histories
     def stress(n, seed):
@@ -93,7 +95,7 @@ def run(ctx, pid):
         nl, mism = monitor(ctx, lock, "stress", t, timeout=2400)
         return sts, t, nl, mism
 
-    f_stress = pool.submit(stress, 100 if quick else 1500, ctx.seed * 100)
+    f_stress = pool.submit(stress, 60 if quick else 1500, ctx.seed * 100)
 
     # ------------------------------------------------------------------ 3. spec -> code: edge cover, puppet replay
     def replay(tag, nworkers, nsel):
@@ -153,9 +155,9 @@ def run(ctx, pid):
             cdrift = "op log rejected at line %d of %d (%s by w%s, n=%s)" % (conf.depth, st["op_lines"], row.get("op"), row.get("w"), row.get("n"))
         return beh, st, evs, nl, mism, cdrift
 
-    f_seq = pool.submit(seq, 20 if quick else 400, 2)
+    f_seq = pool.submit(seq, 15 if quick else 400, 2)
 
-    plans = [("q", 2, 1000)] if quick else [("q", 2, 10 ** 9), ("a", 2, 6000), ("b", 3, 6000)]
+    plans = [("q", 2, 700)] if quick else [("q", 2, 10 ** 9), ("a", 2, 6000), ("b", 3, 6000)]
     f_replay = [pool.submit(replay, *p) for p in plans]
 
     # ------------------------------------------------------------------ collect
@@ -189,8 +191,6 @@ def run(ctx, pid):
     total["events"] += nl
     if cdrift:
         conf_drift.append("seq: " + cdrift)
-    if st["spills"] == 0 or st["grows"] == 0 or st["multi_item_steals"] == 0:
-        raise vlib.Infra("macro-operation replays did not reach spill/grow/multi-item steal: %s" % st)
     ctx.log("macro-ops: %d behaviours, %d operations on real rings (256/64): %d spills, %d grows, %d multi-item steals, skipped takes %d, "
             "conformance %s, monitor mismatches %d" % (st["behaviours"], st["ops"], st["spills"], st["grows"], st["multi_item_steals"],
                                                        st["skipped_takes"], cdrift or "ok", len(mism)))
@@ -227,6 +227,8 @@ def run(ctx, pid):
         ctx.evidence("model_checking", cov, assumptions, violations=len(mismatches))
         raise vlib.Violation(pid, rp, "monitor: %s at trace line %d of %s: %s (%d mismatches in total; kinds: %s)"
                              % (kind, line, src, detail, len(mismatches), sorted({m[3] for m in mismatches})))
+    if seq_stats["spills"] == 0 or seq_stats["grows"] == 0 or seq_stats["multi_item_steals"] == 0:
+        raise vlib.Infra("macro-operation replays did not reach spill/grow/multi-item steal: %s" % seq_stats)
     if conf_drift or total["drift"]:
         ctx.log("drift (not a verdict): %s %s" % (conf_drift, notes))
     ctx.evidence("model_checking", cov, assumptions)
